@@ -338,3 +338,15 @@ Section LitShow.
   Definition lit_token_view (l : lit) : tv := wrap_view [TStr (show_lit l)].
   Definition lit_token_string (l : lit) : ts := wrap_string [ZLit (show_lit l)].
 End LitShow.
+
+(** ** components with attributes: `DisplayComp::new(tag, &[(name, value)..])` for the string / display flavours, the
+    element `<tag name="value" ..>` for the view flavours.  [show_attr] is the printing of an attribute value (for the
+    compared characters: the value itself). *)
+Section Attrs.
+  Variable show_attr : str -> str.
+  Definition attr_text (nv : str * str) : str := 32 :: fst nv ++ [61; 34] ++ show_attr (snd nv) ++ [34].
+  Definition open_tag (tag : str) (attrs : list (str * str)) : str := 60 :: tag ++ concat (map attr_text attrs) ++ [62].
+  Definition close_tag (tag : str) : str := 60 :: 47 :: tag ++ [62].
+  Definition env_with_attrs (vars : str -> str) (comps : str -> str * list (str * str)) : env :=
+    mk_env vars (fun k => open_tag (fst (comps k)) (snd (comps k))) (fun k => close_tag (fst (comps k))).
+End Attrs.
